@@ -202,17 +202,20 @@ def r14_4(ctx: Ctx, cg: CallGraph) -> None:
                 v = nd.value
                 if isinstance(v, (ast.Set, ast.SetComp)) or (isinstance(v, ast.Call) and dotted(v.func) in ("set", "frozenset")):
                     sets.add(nd.targets[0].id)
+        def is_set_expr(e):
+            return (isinstance(e, ast.Name) and e.id in sets) or isinstance(e, (ast.Set, ast.SetComp)) or \
+                (isinstance(e, ast.Call) and dotted(e.func) in ("set", "frozenset"))
         for nd in walk_no_nested(fi.node):
             it = None
-            if isinstance(nd, (ast.For, ast.comprehension)) and isinstance(nd.iter, ast.Name) and nd.iter.id in sets:
+            if isinstance(nd, (ast.For, ast.comprehension)) and is_set_expr(nd.iter):
                 it = nd
-            elif isinstance(nd, ast.Call) and dotted(nd.func) in ("list", "tuple") and nd.args and isinstance(nd.args[0], ast.Name) and nd.args[0].id in sets:
+            elif isinstance(nd, ast.Call) and dotted(nd.func) in ("list", "tuple", "enumerate") and nd.args and is_set_expr(nd.args[0]):
                 it = nd
             if it is None:
                 continue
             n += 1
             ok, why = _order_normalised(fi, it)
-            ctx.instance("R14.4", fi.where(it), f"{short}: iteration over set `{unparse(it.iter if hasattr(it, 'iter') else it.args[0])}`: {why}")
+            ctx.instance("R14.4", fi.where(it), f"{short}: iteration over set `{unparse(it.iter if hasattr(it, 'iter') else it.args[0])[:60]}`: {why}")
             if not ok:
                 ctx.violation("R14.4", short, "set order " + unparse(it)[:60], fi.where(it),
                               f"{short}: the iteration order of a set (hash order, randomised per process for strings) can reach the output: {why}")
